@@ -79,6 +79,13 @@ def run_t7ref(case):
         d = CiscoPassword().decrypt_type_7(enc)
     except Exception:
         return {"enc": enc, "dec": None}
+    # the other calling form: the encoded string handed to the constructor
+    try:
+        d2 = CiscoPassword(enc).decrypt_type_7()
+    except Exception:
+        d2 = None
+    if d2 != d:
+        return {"enc": enc, "dec": None, "note": "CiscoPassword(ep).decrypt_type_7() gave %r, CiscoPassword().decrypt_type_7(ep) gave %r" % (d2, d)}
     return {"enc": enc, "dec": d if isinstance(d, str) else None}
 
 
@@ -141,6 +148,12 @@ def run_t7lib(case):
         d = cp.decrypt_type_7(enc)
     except Exception:
         d = None
+    try:
+        d2 = CiscoPassword(enc).decrypt_type_7()
+    except Exception:
+        d2 = None
+    if d2 != d:
+        return {"enc": enc, "dec": None, "note": "constructor form gave %r, argument form %r" % (d2, d)}
     return {"enc": enc, "dec": d if isinstance(d, str) else None}
 
 
